@@ -77,6 +77,9 @@ func cmdVerify(args []string) {
 				continue
 			}
 			spec := ps.Funcs[key]
+			if spec.Inline {
+				continue
+			}
 			if spec.Trusted {
 				fmt.Printf("%-50s trusted (assumed)\n", key)
 				continue
@@ -127,6 +130,9 @@ func cmdVerify(args []string) {
 					if !ob.Cover && ob.Status != "unsat" || ob.Cover && ob.Status == "unsat" {
 						nf++
 					}
+				}
+				if obs[0].Cover && nf < len(obs) {
+					nf = 0 // some path is feasible: infeasible paths are dead code, not vacuity
 				}
 				if nf > 0 || *verbose {
 					st := "ok"
